@@ -611,7 +611,7 @@ impl Prop for C06 {
             };
             let arith = e["arith"].as_bool().unwrap_or(false);
             let outcomes = e["outcomes"].as_array().cloned().unwrap_or_default();
-            let ok = match marked.get(&id) {
+            let ok = match marked.get(&id).filter(|p| !p.is_empty()) {
                 Some(p) => outcomes.iter().any(|o| o.as_f64().map(|w| value_matches(t, p, w)).unwrap_or(false)),
                 None => {
                     let r = raised && outcomes.iter().any(|o| o == "overflow");
